@@ -101,7 +101,9 @@ CLAIMS = {
          "(C06_assembled_optimal); the sub-problem given to a sub-solver (projection + re-added empty rankings) has the cost table of the whole "
          "problem on the group (C06_sub_problem_table); the model of the ParCons assembly returns a ranking of the universe respecting the "
          "partition, sets the mark exactly when no component goes to the auxiliary algorithm (C06_flag_iff), and a marked consensus is a "
-         "global minimiser provided the exact sub-solver returns sub-problem optima (C06_parcons; that premise is property C05). Per run, in "
+         "global minimiser provided the exact sub-solver returns sub-problem optima (C06_parcons; that premise is property C05); the partition "
+         "the MODEL computes (Floyd-Warshall closure, mutual-reachability classes sorted by number of ancestors) is an ordered partition "
+         "without back arcs for every table (C06_model_partition), so ParCons on it needs no assumption on the partition. Per run, in "
          "Coq: model assembly = library consensus and flag, one recorded sub-solver call per non-trivial component on exactly the model's "
          "sub-problem, model SCCs = library SCCs as sets, verified no-back-arc test on the library's partition, flag => score = verified "
          "brute-force optimum (universes <= 6).",
@@ -110,7 +112,8 @@ CLAIMS = {
  "C07": ("Coq theorems on the model of the ParFront merge loop (strict exchange + transitivity) and of consistent_with (total, iff); model = code by vm_compute correspondence",
          "Machine-checked end to end on the model: from ANY partition of the universe without back arcs, the merge loop terminates, "
          "concatenates consecutive groups without reordering, ends with all consecutive groups robustly linked, and EVERY optimal consensus "
-         "ranks each group strictly before the later ones; is_optimal <-> score = opt. Outside the model (judged per run with the verified "
+         "ranks each group strictly before the later ones; is_optimal <-> score = opt; started from the partition the model computes, nothing "
+         "is assumed (C07_model_parfront). Outside the model (judged per run with the verified "
          "boolean tests): igraph's SCC order. Per run: merge-loop model = library on the library's SCC order; all optimal position functions "
          "enumerated in Coq respect the returned partition (<= 5/6 elements). consistent_with (model) is proved total and True exactly when the "
          "element counts agree and earlier groups are strictly before later ones (C07_consistent_with_iff); model = code on ALL (partition, "
@@ -149,7 +152,10 @@ CLAIMS = {
  "C09": ("Coq theorem on the model of BioConsert (monotone local search + minimum selection) + vm_compute correspondence of departures and results",
          "Machine-checked: the score reached from a departure vector is its true score and is at most the departure's (every accepted move "
          "lowers the true score); the selection reports the minimum and returns only rankings with that score; hence the reported score, shared "
-         "by all returned rankings, is at most the score of EVERY departure (C09_never_worse); the model's departures are dense vectors; "
+         "by all returned rankings, is at most the score of EVERY departure (C09_never_worse); the model's departures are dense vectors; in "
+         "the terms of the statement (C09_default_bioconsert, C09_with_starters): the model always answers, every returned ranking is a "
+         "ranking of the universe with the reported generalized Kemeny score, at most the score of every input ranking completed with its "
+         "missing elements in a last bucket, of the all-tied ranking, resp. of the consensus of each starting algorithm; "
          "PickAPerm's answer is the minimum over the (unified) inputs. Per run, in Coq: the departure vectors are recomputed by the model in the id "
          "space of the input dataset (unified inputs + all-tied, or the starters' own consensus), the model's consensus and score = the library's, "
          "and every returned ranking scores at most each departure; starters Borda, Copeland, PickAPerm, BioCo, two and three at once.",
